@@ -29,8 +29,10 @@ static volatile int n_aes, n_sha;               /* entries into the wrapped self
 static volatile uint64_t clk;                   /* logical clock */
 static volatile uint64_t t_selftest_exit;       /* clock when the SHA self-tests returned (end of the test run) */
 static volatile int stub_spin;                  /* stress: busy iterations inside the self-tests */
+static volatile unsigned stall_us;              /* stress: one long stall of the winner inside the self-tests */
 static volatile uint32_t *status_var;
-static uint8_t *kat_sha, *kat_aes;        /* writable known-answer data of the real self-tests */           /* self_test_status inside the library */
+static uint8_t *kat[4];         /* writable known-answer data of the real self-tests: SHA-512 message, GCM tag, CBC IV, XTS key */
+static const char *const kat_sym[4] = { "msg_sha512", "aes_gcm_256_tag", "aes_cbc_128_iv", "aes_xts_128_key1" };           /* self_test_status inside the library */
 static inline uint64_t tick(void) { return __atomic_add_fetch(&clk, 1, __ATOMIC_SEQ_CST); }
 
 int __wrap__aes_self_tests(void);
@@ -38,6 +40,7 @@ int __wrap__aes_self_tests(void)
 {
         __atomic_add_fetch(&n_aes, 1, __ATOMIC_SEQ_CST);
         for (volatile int i = 0; i < stub_spin; i++) ;
+        if (stall_us) usleep(stall_us);
         if (run_real == 2) return __real__aes_self_tests();     /* natural verdict of the real tests (a known-answer bit may be flipped) */
         if (run_real) (void) __real__aes_self_tests();
         return verdict_fail == 1 ? 1 : 0;      /* verdict_fail: 1 = the AES group fails, 2 = only the SHA group fails */
@@ -270,8 +273,11 @@ static void mode_stress(void)
                 active_n = rng_below(&r, 4) == 0 ? 1 + (int) rng_below(&r, (uint32_t) POOL) : 1 + (int) rng_below(&r, (uint32_t) (POOL < 8 ? POOL : 8));
                 verdict_fail = (int) rng_below(&r, 3);
                 run_real = rng_below(&r, 200) == 0;
-                uint8_t *flip = NULL;
-                if (rng_below(&r, 1000) == 0) { run_real = 2; uint32_t k = rng_below(&r, 3); verdict_fail = (int) k; flip = k == 1 ? kat_aes : k == 2 ? kat_sha : NULL; if (flip) *flip ^= 1; out_count("stress_rounds_with_real_self_tests", 1); }
+                unsigned flip = 0;
+                if (rng_below(&r, 1000) == 0) { run_real = 2; flip = rng_below(&r, 16); verdict_fail = flip != 0; for (int k = 0; k < 4; k++) if (flip >> k & 1) *kat[k] ^= 1; out_count("stress_rounds_with_real_self_tests", 1); }
+                /* once per run: the claim winner is stalled for several seconds inside the self-tests while the others wait */
+                int stall = (c == g_from + 3 && arg_int("--stall-s", 0) > 0);
+                if (stall) { stall_us = (unsigned) arg_int("--stall-s", 0) * 1000000u; if (active_n < 3) active_n = 3; out_count("stress_long_stall_rounds", 1); } else stall_us = 0;
                 stub_spin = rng_below(&r, 3) ? (int) rng_below(&r, 400) : (int) rng_below(&r, 20000);
                 for (int i = 0; i < active_n; i++) { kind_of[i] = rng_below(&r, 2) ? 0 : 1 + (int) rng_below(&r, 2); delay_of[i] = rng_below(&r, 2) ? 0 : (int) rng_below(&r, 300); rc_of[i] = -99; }
                 n_aes = n_sha = 0; clk = 0; t_selftest_exit = 0;
@@ -308,7 +314,7 @@ static void mode_stress(void)
                         if (rc_of[i] != want) { snprintf(key, sizeof key, "wrong-verdict stress"); out_viol("C17", key, rb, "thread %d of %d returned %d, injected verdict %s", i, active_n, rc_of[i], verdict_fail ? "fail" : "pass"); }
                         if (rclk_of[i] < t_selftest_exit) { snprintf(key, sizeof key, "returned-before-selftests-finished stress"); out_viol("C17", key, rb, "thread %d returned at logical time %llu before the self-tests finished at %llu", i, (unsigned long long) rclk_of[i], (unsigned long long) t_selftest_exit); }
                 }
-                if (flip) *flip ^= 1;
+                for (int k = 0; k < 4; k++) if (flip >> k & 1) *kat[k] ^= 1;
                 if ((int) *status_var != (verdict_fail ? 1 : 0)) { snprintf(key, sizeof key, "verdict-not-published stress"); out_viol("C17", key, rb, "status after the round is %u", *status_var); }
                 out_count("stress_rounds", 1); out_count("stress_thread_calls", (uint64_t) active_n);
                 out_max("max_threads_in_round", (uint64_t) active_n);
@@ -327,8 +333,7 @@ int main(int argc, char **argv)
 #endif
         status_var = sym_addr("self_test_status");
         if (!status_var) out_err("self_test_status not found in the symbol table");
-        kat_sha = sym_addr("msg_sha512"); kat_aes = sym_addr("aes_gcm_256_tag");
-        if (!kat_sha || !kat_aes) out_err("known-answer data of the self-tests not found");
+        for (int k = 0; k < 4; k++) { kat[k] = sym_addr(kat_sym[k]); if (!kat[k]) out_err("known-answer data %s of the self-tests not found", kat_sym[k]); }
         if (*status_var != 2) out_err("self_test_status does not hold NOT_DONE at start-up (%u)", *status_var);
         const char *m = arg_str("--mode", "stress");
         if (!strcmp(m, "sched")) mode_sched(); else mode_stress();
